@@ -7,7 +7,7 @@
     download time: [OpenFile p], [HttpGet u] or [Reject k].  [run w st ops]
     gives the status and the events of every step of a history. *)
 From Coq Require Import List NArith.
-From AGH Require Import Base.Run Base.Bytes Base.PathClean Base.Glob Model.SafeFS Proofs.GlobCase Proofs.SafeFS.
+From AGH Require Import Base.Run Base.Bytes Base.PathClean Base.Glob Model.SafeFS Proofs.GlobCase Proofs.GlobClass Proofs.SafeFS Proofs.SafeFSClient.
 Import ListNotations.
 
 (** In every world, from every starting state (configured, planted or reached
@@ -158,3 +158,121 @@ Theorem C17_dir_star_only : forall d loc p,
   exists x, p = d ++ sep :: x /\ mem sep x = false /\ p = clean loc.
 Proof. exact dir_star_only. Qed.
 Print Assumptions C17_dir_star_only.
+
+(** * Round 4 (G): the HTTP client is a parameter of the world
+
+    [reader] hands every location that is not an absolute path to the HTTP
+    client, whatever its scheme; what the client answers is the table [w_http],
+    any table.  [client_no_local w]: the client never hands back the content of
+    a local file.  The harness evaluates this hypothesis (its executable form,
+    [C17_client_hypothesis_executable]) on the client that package home builds
+    and stores in filtering.Config.HTTPClient, for every spelling it generates. *)
+
+(** The single decision: under the hypothesis, reading a location yields the
+    content of a local file only if the location is an absolute path, the file
+    is its cleaned form and a configured pattern matches it. *)
+Theorem C17_delivered_local_implies_safe : forall w loc m,
+  client_no_local w ->
+  fetch w (reader (w_pats w) loc) = Some m -> local_content w m ->
+  is_abs loc = true /\ reader (w_pats w) loc = OpenFile (clean loc) /\
+  lookup (clean loc) (w_files w) = Some m /\ safe (w_pats w) (clean loc).
+Proof. exact delivered_local_implies_safe. Qed.
+Print Assumptions C17_delivered_local_implies_safe.
+
+(** No scheme and no relative spelling delivers the content of a local file. *)
+Theorem C17_nonabsolute_never_local : forall w loc m,
+  client_no_local w -> is_abs loc = false ->
+  fetch w (reader (w_pats w) loc) = Some m -> ~ local_content w m.
+Proof. exact nonabsolute_never_local. Qed.
+Print Assumptions C17_nonabsolute_never_local.
+
+(** The state: along every history (add / set-url / refresh / periodic, any
+    locations, planted or offered) the lists never come to hold the content of
+    a local file that no configured pattern matches. *)
+Theorem C17_loaded_local_content_safe : forall w,
+  client_no_local w -> markers_nonzero w ->
+  forall ops st, state_ok w st -> state_ok w (fst (run w st ops)).
+Proof. exact loaded_local_content_safe. Qed.
+Print Assumptions C17_loaded_local_content_safe.
+
+Theorem C17_loaded_file_is_safe : forall w ops st f p,
+  client_no_local w -> markers_nonzero w -> files_distinct w -> state_ok w st ->
+  In f (entries (fst (run w st ops))) -> lookup p (w_files w) = Some (f_loaded f) ->
+  safe (w_pats w) p.
+Proof. exact loaded_file_is_safe. Qed.
+Print Assumptions C17_loaded_file_is_safe.
+
+(** With no patterns configured no content of a local file is ever loaded. *)
+Theorem C17_no_patterns_no_local_content : forall w ops st f,
+  client_no_local w -> markers_nonzero w -> w_pats w = [] ->
+  (forall g, In g (entries st) -> ~ local_content w (f_loaded g)) ->
+  In f (entries (fst (run w st ops))) -> ~ local_content w (f_loaded f).
+Proof. exact no_patterns_no_local_content. Qed.
+Print Assumptions C17_no_patterns_no_local_content.
+
+(** Where the content of an entry comes from, step by step. *)
+Theorem C17_step_provenance : forall w st o st' s evs,
+  step w st o = (st', s, evs) -> forall f', In f' (entries st') -> provenance w st f'.
+Proof. exact step_provenance. Qed.
+Print Assumptions C17_step_provenance.
+
+(** The hypothesis is needed: with a client that answers [file:] URLs from the
+    disk (red-team change C17-G), no patterns, one list from the configuration
+    and one refresh, the property fails. *)
+Theorem C17_client_hypothesis_needed :
+  exists w st ops, markers_nonzero w /\ w_pats w = [] /\ state_ok w st /\
+                   ~ state_ok w (fst (run w st ops)).
+Proof. exact client_hypothesis_needed. Qed.
+Print Assumptions C17_client_hypothesis_needed.
+
+Theorem C17_client_hypothesis_executable : forall w,
+  client_no_local_b (w_files w) (w_http w) = true -> client_no_local w.
+Proof. exact client_no_local_b_sound. Qed.
+Print Assumptions C17_client_hypothesis_executable.
+
+(** * Round 4 (H): the text of a pattern is not a licence *)
+
+(** The matcher alone decides; that the cleaned location is, character for
+    character, one of the configured patterns counts for nothing. *)
+Theorem C17_pattern_text_no_licence : forall pats loc,
+  In (clean loc) pats ->
+  (forall g, In g pats -> glob_match g (clean loc) <> GOk true) ->
+  forall p, reader pats loc <> OpenFile p.
+Proof. exact pattern_text_no_licence. Qed.
+Print Assumptions C17_pattern_text_no_licence.
+
+(** A class of plain ASCII members between literal bytes admits exactly one
+    member in the place of the brackets ... *)
+Theorem C17_class_pattern_exact : forall lit1 cs lit2 name,
+  forallb is_lit lit1 = true -> forallb is_cmember cs = true -> cs <> [] ->
+  forallb is_lit lit2 = true ->
+  glob_match (lit1 ++ c_lbr :: cs ++ c_rbr :: lit2) name = GOk true ->
+  exists c, In c cs /\ name = lit1 ++ c :: lit2.
+Proof. exact class_pattern_exact. Qed.
+Print Assumptions C17_class_pattern_exact.
+
+(** ... so a file named exactly like such a pattern is never opened under it
+    (red-team change C17-H), whatever the spelling of the location. *)
+Theorem C17_class_pattern_own_text_rejected : forall lit1 cs lit2 loc p,
+  forallb is_lit lit1 = true -> forallb is_cmember cs = true -> cs <> [] ->
+  forallb is_lit lit2 = true ->
+  clean loc = lit1 ++ c_lbr :: cs ++ c_rbr :: lit2 ->
+  reader [lit1 ++ c_lbr :: cs ++ c_rbr :: lit2] loc <> OpenFile p.
+Proof. exact class_pattern_own_text_rejected. Qed.
+Print Assumptions C17_class_pattern_own_text_rejected.
+
+Theorem C17_class_pattern_opens_members : forall lit1 cs lit2 loc p,
+  forallb is_lit lit1 = true -> forallb is_cmember cs = true -> cs <> [] ->
+  forallb is_lit lit2 = true ->
+  reader [lit1 ++ c_lbr :: cs ++ c_rbr :: lit2] loc = OpenFile p ->
+  exists c, In c cs /\ p = lit1 ++ c :: lit2 /\ p = clean loc.
+Proof. exact class_pattern_opens_members. Qed.
+Print Assumptions C17_class_pattern_opens_members.
+
+(** One escape between literal bytes admits exactly the escaped character in
+    its place (never the backslash). *)
+Theorem C17_escape_pattern_exact : forall lit1 c lit2 name,
+  forallb is_lit lit1 = true -> forallb is_lit lit2 = true ->
+  glob_match (lit1 ++ c_bslash :: c :: lit2) name = GOk true -> name = lit1 ++ c :: lit2.
+Proof. exact escape_pattern_exact. Qed.
+Print Assumptions C17_escape_pattern_exact.
